@@ -666,3 +666,127 @@ def attach_order(c, label=None):
         {"kind": "diverting-hook-attached-before-publishing-hook"},
         {"rows": trows, "syscalls": info, "driver": info.get("driver")})
     ev["wall_s"] = tm.s()
+
+
+# ------------------------------------------------------------------------------------------------ attach scope (which cgroup)
+def _scope_run(bindir, name, top, table, k):
+    """the resolver of the tree in a private mount namespace whose cgroup2 mounts are bind mounts of top/<table[i]> in order;
+    returns (roots read from the namespace's mountinfo, cgroup of the resolved directory, raw event)"""
+    d, exe = rig.prepare(name, bindir)
+    mps = []
+    for i in range(len(table)):
+        mp = os.path.join(d, "m%d" % (i + 1))
+        os.makedirs(mp)
+        mps.append(mp)
+    cfgp = os.path.join(d, "proxy-agent.json")
+    cfg = util.read_json(cfgp)
+    cfg["cgroupRoot"] = mps[0]                    # the configured fallback: the system mount
+    util.write_json(cfgp, cfg)
+    sp, out, mi = os.path.join(d, "script.json"), os.path.join(d, "trace.ndjson"), os.path.join(d, "mountinfo.txt")
+    with open(sp, "w") as f:
+        json.dump({"mode": "scope", "loggers": False}, f)
+    binds = " && ".join("mount --bind %s %s" % (os.path.join(top, *g), mp) for g, mp in zip(table, mps))
+    inner = "%s && umount -R -l /sys/fs/cgroup && cat /proc/self/mountinfo > %s && exec %s" % (binds, mi, exe)
+    pr = util.sh(["unshare", "-m", "sh", "-c", inner], cwd=d,
+                 env={"VERIF_CMD": "realmaps", "VERIF_SCRIPT": sp, "VERIF_OUT": out, "RUST_BACKTRACE": "0"}, timeout=120, check=False)
+    rows = util.read_ndjson(out) if os.path.exists(out) else []
+    ev = next((r for r in rows if r.get("e") == "resolved"), None)
+    if pr.returncode != 0 or ev is None:
+        raise util.ToolError("realmaps driver (scope mode) failed rc=%s\n%s" % (pr.returncode, (pr.stdout or "")[-1500:]))
+    topname = "/" + os.path.basename(top)
+    seen = []       # (mount point, root as a cgroup below top), in mount order, as the namespace itself reports them
+    with open(mi) as f:
+        for ln in f:
+            left, _, right = ln.partition(" - ")
+            fl = left.split()
+            if right.split()[0] != "cgroup2":
+                continue
+            root, mp = fl[3], fl[4]
+            if not (root == topname or root.startswith(topname + "/")):
+                raise util.ToolError("a cgroup2 mount outside the private hierarchy is visible in the namespace: %s" % ln.strip())
+            seen.append((mp, [x for x in root[len(topname):].split("/") if x]))
+    if [m for m, _ in seen] != mps:
+        raise util.ToolError("the namespace does not show the mount table that was set up: %s vs %s" % (seen, mps))
+    path = os.path.normpath(ev["path"])
+    best = None
+    for mp, root in seen:
+        if path == mp or path.startswith(mp + "/"):
+            rel = [x for x in path[len(mp):].split("/") if x]
+            if best is None or len(mp) > len(best[0]):
+                best = (mp, root + rel)
+    if best is None:
+        raise util.ToolError("the resolved directory %r is not below any cgroup2 mount of the namespace %s" % (path, mps))
+    if not os.environ.get("VERIF_KEEP"):
+        shutil.rmtree(d, ignore_errors=True)
+    return [r for _, r in seen], best[1], ev
+
+
+def attach_scope(c, label=None):
+    """C06, 'for EVERY outbound connect by a process other than the agent': the cgroup the diverting hook is attached to covers
+    every cgroup2 sub-tree mounted in the agent's namespace.  Every mount table of spec/gen/CgroupScopeGen (system mount first,
+    up to two further bind mounts of sub-trees) is set up for real (private cgroups, private mount namespace); the REAL
+    get_cgroup2_mount_path (+ configured fallback) resolves; rows judged by spec/trace/CgroupScopeTrace.  Violations are
+    recorded on c under {"kind": "attach-target-does-not-cover-a-mounted-subtree"}; evidence in c.extra["attach_scope"]."""
+    label = label or c.prop.lower()
+    tm = util.Timer()
+    c.tlc("CgroupScope", "CgroupScope.cfg", workers=2, timeout=600, required_actions=["Resolve", "AttachProg", "Connect"])
+    neg = c.tlc("CgroupScope", "CgroupScope_last.cfg", workers=2, timeout=600, coverage=False, expect_ok=False)
+    if neg.invariant_violated not in ("ScopeCoversMounts", "EveryVisibleConnectDiverted"):
+        raise tlcmod.TlcError("mc/CgroupScope_last.cfg (the last mount is taken) was expected to violate the scope clause "
+                              "(anti-vacuity); got %s" % (neg.invariant_violated or neg.error_lines[:2] or "no violation"))
+    g = c.tlc("CgroupScopeGen", "CgroupScopeGen.cfg", subdir="gen", workers=1, coverage=False, timeout=300)
+    tables = tlcmod.printed_json(g, "TABLES")
+    if not tables or not tables[0]:
+        raise tlcmod.TlcError("CgroupScopeGen printed no mount tables")
+    tables = sorted(([list(x) for x in t] for t in tables[0]), key=lambda t: (len(t), t))
+    if c.tier == "quick":
+        rnd = random.Random(c.seed)
+        multi = [t for t in tables if len(t) > 1 and any(x != t[0] for x in t)]
+        tables = [t for t in tables if len(t) == 1][:2] + rnd.sample(multi, min(24, len(multi)))
+    p = util.sh("findmnt -t cgroup2 -n -o TARGET | head -n 1", timeout=30, check=False)
+    cg2 = (p.stdout or "").strip()
+    if not cg2 or not os.path.isdir(cg2):
+        raise util.ToolError("no cgroup2 mount: the attach scope cannot be observed")
+    bindir = build.cargo_build("agent")
+    top = os.path.join(cg2, "verif_scope_%d_%d" % (os.getpid(), random.randrange(1 << 30)))
+    names = sorted({x for t in tables for g_ in t for x in g_})
+    made = []
+
+    def mk(path, depth):
+        os.mkdir(path)
+        made.append(path)
+        if depth > 0:
+            for n in names:
+                mk(os.path.join(path, n), depth - 1)
+    rows, per = [], []
+    try:
+        mk(top, max(len(g_) for t in tables for g_ in t))
+        for k, t in enumerate(tables):
+            roots, target, ev = _scope_run(bindir, "scope_%s_%d_%d" % (label, os.getpid(), k), top, t, k)
+            if roots != t:
+                raise util.ToolError("mount table %s came out as %s" % (t, roots))
+            rows.append({"e": "mounts", "roots": roots})
+            rows.append({"e": "resolve", "target": target})
+            per.append({"mounts": roots, "target": target, "from_table": ev.get("from_table")})
+    finally:
+        for path in reversed(made):
+            try:
+                os.rmdir(path)
+            except OSError:
+                pass
+    c.count(n=len(tables))
+    c.extra["attach_scope"] = {"mount_tables_replayed": len(tables), "first": per[:3], "wall_s": None}
+    ok, why, res = validate_trace(c, "CgroupScopeTrace", "CgroupScopeTrace.cfg", rows, "scope_%s" % label, count=len(tables), timeout=600)
+    c.extra["attach_scope"]["wall_s"] = tm.s()
+    if ok:
+        c.sample({"kind": "attach scope: cgroup2 mount table of the namespace -> cgroup of the resolved attach directory", **per[-1]})
+        return
+    if "P_C06_AttachScope" not in why:
+        raise util.ToolError("CgroupScopeTrace could not follow the rows: %s" % why)
+    bad = next(x for x in per if any(x["target"] != m[:len(x["target"])] for m in x["mounts"]))
+    c.violation(
+        "the directory the agent resolves for the cgroup/connect4 attach does not cover every cgroup2 sub-tree mounted in its "
+        "namespace: mounts (roots, mount order) %s -> attach target %s; processes of the cgroups outside the target are "
+        "neither diverted nor recorded while the redirector reports RUNNING" % (json.dumps(bad["mounts"]), json.dumps(bad["target"])),
+        {"kind": "attach-target-does-not-cover-a-mounted-subtree"},
+        {"rows": rows, "case": bad})
